@@ -114,6 +114,22 @@ NEEDS3 = {
     'C13/2': ('get_disjoint_mut: the early return tests self.is_empty() instead of ks.is_empty()', 'J == 0 on a non-empty map: ks[..ks.len() - 1] underflows and panics'),
     'C16/1': ('Map::from_iter calls insert_key_value instead of insert', 'a source with a repeated key + distinguishable equal keys: the later key object is stored'),
     'C16/2': ('Extend<T> for Set goes through map.checked_insert', 'a source with more new elements than free room: the overflow is silently dropped instead of panicking'),
+    'C03/1': ('Map::insert_key_value calls insert_i (the unchecked core, debug_assert only) instead of insert_ii', 'release build + full map + a new key through insert_key_value: no panic, write past the array'),
+    'C03/2': ('Set::from_iter goes through map.checked_insert', 'collect()/from_iter of more than N distinct elements: silent truncation instead of a panic'),
+    'C04/1': ('insert_i loses the `break` after the key match: the scan goes on while a bitwise copy of a live pair is held', 'insert_unchecked of a present key (not in the last slot) whose Eq panics on a later slot: double drop'),
+    'C04/2': ('insert_i: the scan exit `i == self.len` became `i > self.len` (one dead slot is compared too)', 'remove the last entry, then insert_unchecked an equal key: a destroyed key is compared and its pair revived'),
+    'C12/1': ('insert_i keep-key branch: k and old_k swapped', 'insert_unchecked with an equal-but-distinguishable key: the supplied key is stored, the original destroyed'),
+    'C12/2': ('insert_ii_for_full: `if update_key` became `if !update_key`', 'FULL map + checked_insert with an equal-but-distinguishable key'),
+    'C14/1': ('Map::eq: the per-entry condition `other.get(k) == Some(v)` became `other.get(k).is_some()`', 'two maps with the same keys that differ in one value compare equal'),
+    'C14/2': ('insert_i key-found arm: `target = i` became `target = self.len`', 'insert_unchecked of a present key appends a duplicate: == is no longer reflexive / symmetric'),
+    'C15/1': ('Map::clone zips with self.pairs.iter() (all N slots) instead of pairs[..len]', 'a container that is not full: clone() runs on dead / uninitialised slots (extra clone calls)'),
+    'C15/2': ('Map::clone sets m.len = self.pairs.len() (the capacity)', 'a container that is not full: the clone claims N entries'),
+    'C17/1': ('Map::get_mut searches the whole slot array pairs[..]', 'a key whose bits are left in a dead slot, or an always-true Eq on an emptied map: &mut V into a dead slot'),
+    'C17/2': ('Map::clear: `for i in 0..len` became `for i in 1..len`', 'any non-empty clear() with droppable elements: slot 0 is never destroyed'),
+    'C18/1': ('insert_i: the capacity debug_assert `target < N` became `i + 1 < N`', 'debug build + a new key into the last free slot: insert_unchecked panics within its contract'),
+    'C18/2': ('insert_i: the scan exit `i == self.len` became `i > self.len`', 'remove the last pair, then insert_unchecked an equal key on the non-full map: Some(stale value) instead of None'),
+    'C20/1': ('Map::serialize: `serialize_entry(k, v)?` became `.ok()`', 'an entry that fails to serialize mid-map is skipped silently and Ok is returned'),
+    'C20/2': ('Set::serialize iterates &self.map and serializes the (&T, &()) item', 'any self-describing format: each element is written as the pair [elem, null]'),
 }
 
 
